@@ -552,7 +552,8 @@ class HttpFuzz:
                                "user": self.appboot.USER}[who])
         return c
 
-    def one(self, method, path, query, who, headers, body=None, endpoint="?"):
+    def one(self, method, path, query, who, headers, body=None, endpoint="?", stored=None):
+        """`stored`: option pairs in effect through stream defaults (they may ask for an injected error too)"""
         H = self.H
         url = H.build_url(path, query)
         if body:
@@ -568,7 +569,7 @@ class HttpFuzz:
         ch.count(f"route:{endpoint}")
         if res.status in (200, 206) or (400 <= res.status < 500 and res.status not in (401, 404)) or query:
             ch.nontrivial.add((method, url, who, repr(headers), body[0] if body else None))
-        why = H.violates(res, query)
+        why = H.violates(res, list(query) + list(stored or []))
         if why:
             sig = (endpoint, H.signature(res))
             if sig not in self.seen_sig:          # shrink and report every distinct failure once
@@ -580,6 +581,9 @@ class HttpFuzz:
                 f["endpoint"] = endpoint
                 if body:
                     f["body"] = body[0]
+                if endpoint == "stored-defaults":
+                    f["stored_form"] = getattr(self, "_last_form", {}) if method == "POST" else \
+                        getattr(self, "_effective_form", {})
                 ch.oracle_failures.append(f)
         return res
 
@@ -751,6 +755,53 @@ class HttpFuzz:
                 for t in (targets[:3] if url else self.rng.sample(targets, 2 if self.ctx.thorough else 1)):
                     self.one("GET", t, [["drm", "all"], [name, v]], "anon", None, endpoint="long-strings")
 
+    def stored_defaults(self, n):
+        """stream defaults as an input dimension: option vectors saved through POST /stream/<spk>/defaults
+        (media user, valid CSRF token - the one state-changing request this channel sends on purpose; the
+        defaults are cleared again at the end), then the manifests and segments of that stream"""
+        import c16_mp4
+        H, rng = self.H, self.rng
+        up = c16_mp4.Uploader(self.app)
+        with self.app.ctx() as m:
+            spk = m.Stream.get(directory="syn1").pk
+        saved = self.clients
+        self.clients = dict(saved, media=up.c)
+        gets = ["/dash/live/syn1/hand_made.mpd", "/dash/vod/syn1/hand_made.mpd", "/dash/live/syn1/manifest_n.mpd",
+                "/dash/live/syn1/syn1_v1/init.m4v", "/dash/vod/syn1/syn1_v1/1.m4v", "/dash/vod/syn1/syn1_a1/time/0.m4a",
+                f"/stream/{spk}", f"/stream/{spk}/defaults", "/play/live/syn1/hand_made/index.html"]
+        drm_forms = [{}, {}, {"drm_clearkey": "on", "clearkey__drmloc": "moov"}, {"drm_playready": "on"},
+                     {"drm_playready": "on", "playready__drmloc": "pro", "drm_marlin": "on", "marlin__drmloc": "cenc"},
+                     {"drm_clearkey": "on", "clearkey__drmloc": "bogus"}]
+        effective = []
+        self._effective_form = {}
+        try:
+            for _ in range(n):
+                q = H.gen_query(rng, self.names, self.pool, kinds=self.kinds)
+                form = {k: v for k, v in q if k not in ("drm",)}
+                form.update(rng.choice(drm_forms))
+                if rng.random() < .3:
+                    form["events"] = rng.choice(["ping", "scte35"])
+                self._last_form = {k: v for k, v in form.items()}
+                form["csrf_token"] = up.token("streams")
+                body = ("stored-defaults", {"data": form})
+                res = self.one("POST", f"/stream/{spk}/defaults", [], "media", None, body=body,
+                               endpoint="stored-defaults")
+                if res.status == 302:                  # saved: these defaults are in effect now
+                    effective = [[k, v] for k, v in self._last_form.items()]
+                    self._effective_form = dict(self._last_form)
+                for g in rng.sample(gets, 4):
+                    self.one("GET", g, [], "media", None, endpoint="stored-defaults", stored=effective)
+        finally:
+            self.one("POST", f"/stream/{spk}/defaults", [], "media", None,
+                     body=("stored-defaults", {"data": {"csrf_token": up.token("streams")}}), endpoint="stored-defaults")
+            with self.app.ctx() as m:
+                left = m.Stream.get(directory="syn1").defaults
+                if left:
+                    self.ch.errors.append(f"stream defaults of syn1 were not cleared: {left}")
+                    m.Stream.get(directory="syn1").defaults = None
+                    m.db.session.commit()
+            self.clients = saved
+
     def mutating(self, n):
         """POST / PUT / DELETE with junk bodies and no valid CSRF token"""
         rng = self.rng
@@ -780,7 +831,8 @@ def ch_fuzz_http(ctx) -> Channel:
         "without periods / without timing reference / of zero duration) x Range/Host/Cookie headers; the "
         "every string-typed option and the raw <drm>_la_url parameters with values of 1 KB ... 64 KB +- 8 ... 1 MB "
         "characters and with format-template look-alikes on manifest / encrypted init / media / player routes; "
-        "clock-dependent routes at boundary instants of the controlled clock (1970, NTP era end 2036, 2^31 and "
+        "option vectors saved as *stream defaults* through the defaults form (then the stream's manifests, segments "
+        "and pages); clock-dependent routes at boundary instants of the controlled clock (1970, NTP era end 2036, 2^31 and "
         "2^32 Unix seconds, year 9999); plus "
         "POST/PUT/DELETE rules with junk bodies and no valid CSRF token; oracle: status < 500 or a code the "
         "request itself asks to be injected, answer within 20 s; failures are shrunk to a minimal parameter set "
@@ -798,6 +850,7 @@ def ch_fuzz_http(ctx) -> Channel:
         fz.sweep()
         fz.every_option()
         fz.random_gets(ctx.scale(1500, 40000))
+        fz.stored_defaults(ctx.scale(20, 300))
         before = c16_http.pools(fz.app)
         fz.mutating(ctx.scale(250, 4000))
         after = c16_http.pools(fz.app)
@@ -951,6 +1004,23 @@ def _replay_http(f) -> dict:
         if who != "anon":
             app.login(c, {"media": appboot.MEDIA, "admin": appboot.ADMIN, "user": appboot.USER}[who])
         url = c16_http.build_url(f["path"], f.get("query") or [])
+        if "stored_form" in f:
+            # the failure depends on stream defaults saved through the defaults form
+            import c16_mp4
+            up = c16_mp4.Uploader(app)
+            with app.ctx() as m:
+                spk = m.Stream.get(directory="syn1").pk
+            try:
+                r0 = up.c.post(f"/stream/{spk}/defaults", data={**f["stored_form"], "csrf_token": up.token("streams")})
+                if r0.status_code >= 500:
+                    return {"fails": True, "status": r0.status_code, "why": f"status {r0.status_code} saving the defaults",
+                            "url": f"/stream/{spk}/defaults"}
+                res = c16_http.run(up.c, "GET", url, f.get("headers")) if f["method"] == "GET" else \
+                    c16_http.Result(r0.status_code, 0.0)
+                why = c16_http.violates(res, [[k, v] for k, v in f["stored_form"].items()])
+                return {"fails": why is not None, "status": res.status, "why": why, "exception": res.exc, "url": url}
+            finally:
+                up.c.post(f"/stream/{spk}/defaults", data={"csrf_token": up.token("streams")})
         if f.get("body"):
             kw = dict(dict(BODIES)[f["body"]])
             del c16_http._LAST_EXC[:]
